@@ -242,8 +242,8 @@ func ruleEncodeDecodeArgs(c *core.Ctx) {
 		es, ds := c.Prog.Src(enc.Decl.Body), c.Prog.Src(dec.Decl.Body)
 		o.At(enc.Site(enc.Decl, ""))
 		o.At(dec.Site(dec.Decl, ""))
-		o.Require(strings.Contains(es, "lzw.NewWriter(w,lzwOffByOne)") && strings.Contains(ds, "lzw.NewReader(r,lzwOffByOne)"), "the early-change flag is not handed to both LZW sides")
-		o.Require(strings.Contains(es, "predictParams(p,colors,bpc,columns)") && strings.Contains(ds, "predictParams(p,colors,bpc,columns)"), "the predictor parameters differ between the two sides")
+		o.Shape(strings.Contains(es, "lzw.NewWriter(w,lzwOffByOne)") && strings.Contains(ds, "lzw.NewReader(r,lzwOffByOne)"), "the early-change flag is not handed to both LZW sides")
+		o.Shape(strings.Contains(es, "predictParams(p,colors,bpc,columns)") && strings.Contains(ds, "predictParams(p,colors,bpc,columns)"), "the predictor parameters differ between the two sides")
 	})
 	c.Check(rule, "pdf.FilterCCITTFax", "CCITTFax Encode and Decode derive the codec parameters through the same function", func(o *core.Ob) {
 		for _, m := range []string{"Encode", "Decode"} {
